@@ -24,9 +24,9 @@ pub const REQUIRED: &[&str] = &[
 
 fn lengths(cfg: &Config) -> Vec<usize> {
     let mut v: Vec<usize> = (0..=70).collect();
-    v.extend([95, 96, 97, 127, 128, 129]);
+    v.extend([95, 96, 97, 127, 128, 129, 255, 256, 257, 258, 600]);
     if cfg.thorough() {
-        v.extend([255, 256, 257, 1023, 1024, 1025]);
+        v.extend([511, 512, 513, 1023, 1024, 1025, 4099]);
     }
     v
 }
